@@ -165,7 +165,10 @@ def check_program(e, L, spellings=("class", "method", "operator", "roperator"), 
             # disagreement about raising: property-specific
             res = {"name": nm, "detail": "%s raised %s (%s); reference: %s" % (s, ev[1], ev[2][:80], expect),
                    "inputs": {"src": s, "exc": ev[1], "expect": expect, "text": ""}}
-            if _exc_is_business(mode, ev[1], expect):
+            if ev[1] == "CannotBeRepeatedException" and expect[0] == "ok" and getattr(rf, "unspec_rep", False):
+                res["status"] = "skipped"
+                res["detail"] += " [repeating an operand that contains an anchor / positive lookaround indirectly: left open by C09]"
+            elif _exc_is_business(mode, ev[1], expect):
                 res["status"] = "violated"
                 res["script"] = ("src = %r\nexpect = %r\ntry:\n    p = eval(src)\n    got = ('ok', str(p))\nexcept RecursionError:\n    got = ('exc', 'RecursionError')\n"
                                  "except Exception as e:\n    got = ('exc', type(e).__name__)\n"
